@@ -243,6 +243,28 @@ def rig_scenario(r, idx):
                 threads=r.choice([1, 4, 8]))
 
 
+def directed_rig_scenarios():
+    """always run, quick tier included: a forced policy (what --retries N builds, and a forced policy with
+    its own delay) x tests whose own policy -- per-test override or profile -- is fixed with a delay /
+    fixed with delay and jitter / exponential, x a failing first attempt. (Audit mutation M6: the
+    forced policy replaced only the count when the test's own policy was Fixed{delay, jitter}.)"""
+    def t(pol, pat, dflt=False):
+        code = lambda ok: 0 if ok else 1
+        return dict(policy=pol, pattern=pat, dflt=dflt, default=dict(kind="exit", code=code(dflt)),
+                    attempts={k + 1: dict(kind="exit", code=code(ok)) for k, ok in enumerate(pat)})
+    fixed = lambda c, d, j=False: dict(kind="fixed", count=c, delay=d, jitter=j, max_delay=None)
+    out = []
+    for force in (fixed(2, 0), fixed(1, 7 * MS)):
+        out.append(dict(profile_retries=fixed(3, 25 * MS), force=force, leak_timeout_ms=100, threads=4, bins={"ba": {
+            "m6_own_fixed": t(fixed(4, 30 * MS), [False, True]),
+            "m6_own_fixed_jitter": t(fixed(4, 40 * MS, True), [False, False, False, False]),
+            "m6_own_exp": t(dict(kind="exp", count=3, delay=20 * MS, jitter=False, max_delay=30 * MS), [False, False, True]),
+            "m6_profile_fixed": t(None, [False, True]),
+            "m6_profile_never": t(None, [False, False, False, False, False]),
+            "m6_pass": t(fixed(1, 50 * MS), [True])}}))
+    return out
+
+
 def doc_attempts(eff, pat, dflt):
     """documented attempt count: min(first passing attempt, retries + 1)"""
     total = eff["count"] + 1
@@ -254,8 +276,9 @@ def doc_attempts(eff, pat, dflt):
 
 
 def check_attempt_loop(chk, binary, r, thorough):
-    nsc = 48 if thorough else 6
-    scenarios = [rig_scenario(r, i) for i in range(nsc)]
+    scenarios = directed_rig_scenarios()
+    scenarios += [rig_scenario(r, i) for i in range(48 if thorough else 6)]
+    nsc = len(scenarios)
     cases = [rig.prepare(f"c07_{i}", sc) for i, sc in enumerate(scenarios)]
     results = [vlib.run_impl(binary, "backoff", [c], shards=1)[0] for c in cases]
     none = dict(kind="fixed", count=0, delay=0, jitter=False, max_delay=None)
@@ -580,6 +603,10 @@ def run(tier, seed):
         "the attempt loop is tied by running the real TestRunner (public API, direct spawn, no-op signal "
         "handler) on scripted shell-script test binaries; cancellation during the delay, signals and the "
         "accuracy of real sleeping are left to the end-to-end rig",
+        "the command-line / environment path (--retries N, NEXTEST_RETRIES=N, both) is run on the real "
+        "cargo-nextest binary over the puppet workspace (lib/e2e_retries.py); 'no delay when forced' is "
+        "judged on the puppet's own clock as start(k+1) - end(k) < (smallest delay the test's own policy "
+        "could give, >= 1.5 s configured) - 0.5 s",
         "deserialize_retry_policy is exercised through toml::from_str on `retries = ...` (hook H3), "
         "not through the config crate's layered loader",
     ]
@@ -588,7 +615,13 @@ def run(tier, seed):
     try:
         import e2e_general
         e2e_general.stage(chk, PROP, tier, seed)
+        # --retries / NEXTEST_RETRIES on the real binary x configured policies with delays
+        # (lib/e2e_retries.py): attempt count = min(first pass, N+1), no delay when forced, the
+        # configured delay (never sooner) when not
+        import e2e_retries
+        _, forced_runs, forced_tests = e2e_retries.stage(chk, PROP, tier, seed)
     except RuntimeError as ex:
+        forced_runs = forced_tests = 0
         chk.violation("broken-obligation", "e2e-build", dict(error=str(ex)[-3000:]), no_input=True)
     return chk.finish(
         gate, "make -C coq Properties/C07.vo && coqc gen/assump_C07.v (Print Assumptions)",
@@ -608,14 +641,19 @@ def run(tier, seed):
                   "runs of the real runner (test = effective policy x pass/fail pattern; non-trivial = at "
                   "least one retry allowed)",
              traces_validated_against_impl=chk.counts.get("delay_list_cases", 0) +
-             chk.counts.get("base_delay_cases", 0) + chk.counts.get("attempt_loop_cases", 0)))
+             chk.counts.get("base_delay_cases", 0) + chk.counts.get("attempt_loop_cases", 0) + forced_tests))
 
 
 def replay(path, seed):
     d = json.load(open(path))
     print(json.dumps(d, indent=1)[:3000])
-    binary, err = vlib.build_harness()
     inp = d.get("input")
+    if isinstance(inp, dict) and "forced_scenario" in inp:
+        import e2e_retries
+        why = e2e_retries.replay(d)
+        print("oracle now:", why or "accepts")
+        return 1 if why else 0
+    binary, err = vlib.build_harness()
     if isinstance(inp, dict) and inp.get("op") == "delays" and not inp.get("jitter"):
         p = dict(kind=inp["kind"], count=inp["count"], delay=int(inp["delay"]), jitter=False,
                  max_delay=None if inp["max_delay"] is None else int(inp["max_delay"]), tag="replay")
